@@ -123,7 +123,10 @@ def summarise(results):
         agg["distinct_traces"] += r.get("distinct_traces", 0)
         agg["max_outcomes_per_config"] = max(agg["max_outcomes_per_config"], r.get("distinct_outcomes", 0))
         if r.get("violation"):
-            agg["violations"].append(r)
+            if r["violation"].get("kind") in ("internal", "replay-divergence"):
+                agg["infra"].append({"infra": "explorer: %s: %s" % (r["violation"].get("kind"), r["violation"].get("detail")), "params": r.get("params")})
+            else:
+                agg["violations"].append(r)
             continue
         if not r.get("exhaustive", True):
             agg["configs_incomplete"] += 1
